@@ -268,6 +268,17 @@ def check(ctx):
     ts = repo.fn("dataiter.dt.to_string")
     ok = any(norm(c.func) == "_pull_str" and "strftime(format)" in norm(c) for _, c in calls_in(ts))
     ctx.ob("SIB-18", ts, "to_string -> strftime(format)", ts.node, ok, "format is forwarded to strftime" if ok else "to_string does not call strftime(format)", nontrivial=False)
+    # every result of to_string is produced by datetime.strftime: another formatter (np.datetime_as_string, isoformat)
+    # agrees with it only on part of the domain (years below 1000, %-directives of the platform)
+    from ..forms import expand as _exp19
+    for r_ in [n for n in body_nodes(ts.node) if isinstance(n, ast.Return) and n.value is not None]:
+        e_ = _exp19(ts, r_.value, r_)
+        thr = any(isinstance(c, ast.Call) and isinstance(c.func, ast.Attribute) and c.func.attr == "strftime" for c in ast.walk(e_))
+        ctx.ob("SIB-18", ts, f"return {norm(r_.value)[:50]} comes from strftime", r_, thr,
+               "formatted by datetime.strftime" if thr else
+               f"this exit formats without datetime.strftime ({norm(e_)[:60]}): where the two formatters differ (e.g. the year of dates "
+               f"before 1000 is zero-padded by NumPy, not by strftime here) to_string no longer gives what Python's datetime gives, and "
+               f"scalar and vector arguments disagree", clause="to_string ... gives at every non-missing position what Python's datetime gives")
     rp = repo.fn("dataiter.dt.replace")
     ok = any(isinstance(c.func, ast.Attribute) and c.func.attr == "replace" and any(k.arg is None for k in c.keywords) for _, c in calls_in(rp))
     ctx.ob("SIB-18", rp, "replace -> datetime.replace(**kwargs)", rp.node, ok, "components are forwarded to datetime.replace" if ok else "replace does not forward components", nontrivial=False)
